@@ -475,9 +475,13 @@ EncodeDropCommute ==
 (* dropping nothing changes nothing *)
 DropNothing == phase = "build" => DropT(tab, [cols |-> <<>>, pred |-> NoPred]).rows = tab.rows
 
-(* one line per behaviour: the base, the filters, the history with what every row must return, and the full sweep *)
-Emit == (phase = "access" /\ Len(hist) = MaxAcc) =>
-          PrintT(ToJson([base  |-> [name |-> base, kind |-> Base(base).kind, src |-> Base(base).src, rows |-> Base(base).rows, attrs |-> Base(base).attrs],
-                         stack |-> stack, nrows |-> Len(tab.rows), kind |-> tab.kind, hist |-> hist,
+(* what TLC prints for the driver: one line per pipeline when it is read (base table, filters, what every access must return
+   for every row), and one line per history (the accesses in order, each with what it must return for every row) *)
+EmitStack == (phase = "access" /\ hist = <<>>) =>
+          PrintT(ToJson([k |-> "stack",
+                         base  |-> [name |-> base, kind |-> Base(base).kind, src |-> Base(base).src, rows |-> Base(base).rows, attrs |-> Base(base).attrs],
+                         stack |-> stack, nrows |-> Len(tab.rows), kind |-> tab.kind,
                          full  |-> LET fa == FullAcc(tab) IN [i \in DOMAIN fa |-> [acc |-> fa[i], obs |-> ObsAll(tab, fa[i])]]]))
+EmitHist == (phase = "access" /\ MaxAcc > 0 /\ Len(hist) = MaxAcc) =>
+          PrintT(ToJson([k |-> "hist", base |-> base, stack |-> stack, hist |-> hist]))
 =============================================================================
